@@ -23,12 +23,26 @@ func Snap(vals ...any) string {
 	return s.b.String()
 }
 
+// SnapSpare is Snap that also renders the spare capacity of every slice (the
+// elements between len and cap of its backing array): memory that is shared by
+// everyone holding the slice header, so a write to it (an append to a shared
+// slice with room left) is a shared write although no length changes.
+func SnapSpare(vals ...any) string {
+	s := &snapper{seen: map[uintptr]int{}, spare: true}
+	for _, v := range vals {
+		s.val(reflect.ValueOf(v), 0)
+		s.b.WriteByte(';')
+	}
+	return s.b.String()
+}
+
 // SnapHash is Hash(Snap(...)).
 func SnapHash(vals ...any) uint64 { return Hash(Snap(vals...)) }
 
 type snapper struct {
-	b    strings.Builder
-	seen map[uintptr]int
+	b     strings.Builder
+	seen  map[uintptr]int
+	spare bool
 }
 
 var timeType = reflect.TypeOf(time.Time{})
@@ -142,6 +156,14 @@ func (s *snapper) val(v reflect.Value, depth int) {
 		} else {
 			for i := 0; i < v.Len(); i++ {
 				s.val(v.Index(i), depth+1)
+				s.b.WriteByte(',')
+			}
+		}
+		if s.spare && v.Cap() > v.Len() {
+			full := v.Slice3(0, v.Cap(), v.Cap())
+			fmt.Fprintf(&s.b, "|spare %d:", v.Cap()-v.Len())
+			for i := v.Len(); i < v.Cap(); i++ {
+				s.val(full.Index(i), depth+1)
 				s.b.WriteByte(',')
 			}
 		}
